@@ -167,3 +167,8 @@ package match
 //@   ensures[C01,C03] results: err == nil ==> okbs(bss, root, own, mark)
 //@   loop 1 invariant okbss(bsss, root, own, mark) && len(bsss) <= len(fxas)
 //@   loop 1 invariant forall x int :: 0 <= x && x < len(fxas) ==> fxas[x] != nil && fresh(fxas[x])
+
+//@ func NewBindings returns bs
+//@   safety C07
+//@   modifies nothing
+//@   ensures bs != nil && fresh(bs)
